@@ -143,7 +143,7 @@ def run(ctx: Ctx) -> None:
                 "insert_conditional", "add_if", "add_else", "add_tail_loop", "insert_tail_loop", "define_function", "declare_function", "add_state_order", "set_outputs"}
         if need - set(calls):
             raise MachineryError(f"generator never used {sorted(need - set(calls))}")
-        for f in ("nonlocal-wire", "dom-wire", "multi-output", "tracked"):
+        for f in ("nonlocal-wire", "dom-wire", "multi-output", "tracked", "row-poly-call"):
             if not feats[f]:
                 raise MachineryError(f"generator never produced feature {f}")
         # ---- directed programs for situations the random generator avoids on purpose
@@ -182,6 +182,9 @@ def replay(path: str) -> int:
     from ..progen import generate
     body = json.load(open(path))
     case = body["case"]
+    from . import builder_model
+    if builder_model.replay_case(body):
+        return 0
     if "generator_seed" in case:
         h, g = generate(case["generator_seed"], case.get("size", 30))
         print("entry points:", sorted(set(g.calls)))
